@@ -303,14 +303,25 @@ def reader(report, db, S, M):
                 e.fn[2] if e.fn[0] == 'fn' and len(e.fn) > 2 else None)
         bufs = set(recv(e) for e in top if recv(e) is not None
                    and recv(e)[0] == 'obj' and recv(e)[3] is pb)
-        if len(bufs) != 1:
+        if len(bufs) not in (1, 2):
             raise AnalysisError('read_packet: expected one frame buffer per '
-                                'path, found %d' % len(bufs), rp.node,
+                                'path (or a second one holding the inflated '
+                                'body), found %d' % len(bufs), rp.node,
                                 rel(rp.path))
-        buf = bufs.pop()
         vreads = [e for e in top if e.method() == 'read' and any(
             t.cls is not None and t.cls.name == 'VarInt'
-            for t in (e.targets or ())) and e.args and e.args[-1] == buf]
+            for t in (e.targets or ())) and e.args and e.args[-1] in bufs]
+        if not vreads:
+            raise AnalysisError('read_packet: no VarInt is read from the '
+                                'frame buffer', rp.node, rel(rp.path))
+        # the buffer the frame is assembled in, and the one the id is read
+        # from (the same, unless the inflated body gets a buffer of its own)
+        buf = vreads[0].args[-1]
+        idbuf = vreads[-1].args[-1]
+        if len(bufs) == 2 and (idbuf == buf or len(vreads) != 2):
+            raise AnalysisError('read_packet: two frame buffers on a path '
+                                'that does not inflate into the second',
+                                rp.node, rel(rp.path))
         comp = [pol for a, pol, _ in p.conds if a[1] == 'truth'
                 and struct(a[2][0]) == enabled_at]
         if len(comp) != 1:
@@ -376,15 +387,27 @@ def reader(report, db, S, M):
                     e.res == x.args[-1] and e.method() == 'read'
                     and recv(e) == buf for e in top)
             seq = top[i_dl + 1:i_id]
+            if idbuf != buf:
+                # a fresh buffer takes the inflated body: nothing to reset
+                if any(recv(e) == idbuf for e in top[:i_dl + 1]):
+                    steps.append('stale-buffer')
+                else:
+                    steps.append('reset')
             for e in seq:
                 if e is x:
                     steps.append('inflate' if src_ok else 'inflate-other')
-                elif recv(e) == buf and e.method() == 'reset':
+                    if idbuf != buf and 'reset' in steps:
+                        steps.remove('reset')
+                        steps.append('reset')
+                elif recv(e) == buf and e.method() == 'reset' and \
+                        idbuf == buf:
                     steps.append('reset')
-                elif recv(e) == buf and e.method() == 'send' and \
+                elif recv(e) == idbuf and e.method() == 'send' and \
                         e.args and e.args[-1] == x.res:
                     steps.append('refill')
-                elif recv(e) == buf and e.method() == 'reset_cursor':
+                elif recv(e) == idbuf and e.method() == 'send':
+                    steps.append('refill-other')
+                elif recv(e) == idbuf and e.method() == 'reset_cursor':
                     steps.append('rewind')
             size = False
             for a, pol, _ in p.conds:
@@ -394,7 +417,8 @@ def reader(report, db, S, M):
             if size and 'inflate' in steps:
                 steps.insert(steps.index('inflate') + 1, 'size-check')
             want = ['inflate', 'size-check', 'reset', 'refill', 'rewind']
-            core = [s_ for s_ in steps if s_ in want]
+            core = [s_ for s_ in steps if s_ in want or s_ in (
+                'refill-other', 'stale-buffer', 'inflate-other')]
             if core != want:
                 missing = [w for w in want if w not in core]
                 prob['reader:inflate-arm'] = (
@@ -529,4 +553,4 @@ def mode(report, db, cg, M):
                                  'outside the per-packet reader/writer '
                                  '(cached): a set-compression packet would '
                                  'not take effect for the next frame')
-    report.floor('references to the framing mode', n, 8)
+    report.floor('references to the framing mode', n, 5)
